@@ -1,5 +1,5 @@
 CONSTANTS
-  Prog <- P_hb2
+  Prog <- P_hb5
   Mult = 32
   MaxW = 1
   GS = 2
@@ -12,7 +12,7 @@ CONSTANTS
   Batch = 8
   MaxGen = 3
   AllowTimeout = FALSE
-  DepOrd = TRUE
+  DepOrd = FALSE
 INIT HInit
 NEXT HNext
 CHECK_DEADLOCK FALSE
